@@ -6,6 +6,7 @@ def dispatch (line : String) : String :=
   | "wc" :: args => handleWc args
   | "wl" :: args => handleWl args
   | "wof" :: args => handleWof args
+  | "lit" :: args => handleLit args
   | _ => "bad-op"
 
 partial def loop (h : IO.FS.Stream) (out : IO.FS.Stream) : IO Unit := do
